@@ -288,6 +288,12 @@ def search(ctx, budget_s):
             msg = mc.oracle(c, random.Random(1), samples=500)
             if msg:
                 return c, msg
+        for fn, n, m in (('add_mul_karatsuba_with_efficient_sum', 18, 1), ('add_mul_karatsuba_with_efficient_sum', 1, 20),
+                         ('add_mul_karatsuba', 18, 1), ('add_mul_karatsuba', 1, 21)):
+            c = mc.mk_mul(ctx.rng, fn, n, m, False, ctx.rng.random() < 0.5, k0=1)
+            msg = mc.oracle(c, random.Random(1), samples=500)
+            if msg:
+                return c, msg
         for n in (48, 50):
             c = mc.mk_square(ctx.rng, 'DEFAULT', n, False, False, k0=1)
             msg = mc.oracle(c, random.Random(1), samples=300)
